@@ -44,6 +44,8 @@ SIG2 = b"\r\n\r\n\x00\r\nQUIT\n"
 SIG1 = b"PROXY"
 IPCHARS = set(b".:0123456789abcdefABCDEF")
 A_LIMIT = 420      # longest input run through every prefix
+MAX_REPORT = 12     # unexplained failures minimised per run (one line already stands for hundreds of parses)
+MINIMISE_BUDGET = 150
 
 
 # initialiser expressions of function-local constants of Parser.cc: (name, kind, regex, how to turn the match into an expression)
